@@ -6,10 +6,13 @@ d="$(realpath "$1")"
 wt="$(mktemp -d /tmp/seedcf.XXXXXX)"; rmdir "$wt"
 git -C /repo worktree add -q --detach "$wt" HEAD || exit 2
 cd "$wt"
+# the demo is run from a copy INSIDE the scratch tree (as its author ran it: <tree>/mutX/demo.py), so that demos which
+# locate the tree relative to their own path exercise the scratch tree and not the author's
+cp -r "$d" "$wt/_seed"
 res() { echo "{\"dir\":\"$d\",\"clean_demo_rc\":$1,\"applies\":$2,\"tests\":\"$3\",\"mut_demo_rc\":$4}"; }
-PYTHONPATH="$wt" timeout 600 /venv/bin/python "$d/demo.py" >/dev/null 2>&1; c=$?
+PYTHONPATH="$wt" timeout 600 /venv/bin/python "$wt/_seed/demo.py" >/dev/null 2>&1; c=$?
 if ! git apply "$d/patch.diff" 2>/dev/null; then res $c false "n/a" -1; cd /; git -C /repo worktree remove --force "$wt"; exit 0; fi
 t=$(PYTHONPATH="$wt" timeout 1500 /venv/bin/python -m pytest -q -p no:cacheprovider --timeout=900 tests 2>&1 | tail -1)
-PYTHONPATH="$wt" timeout 600 /venv/bin/python "$d/demo.py" >/dev/null 2>&1; m=$?
+PYTHONPATH="$wt" timeout 600 /venv/bin/python "$wt/_seed/demo.py" >/dev/null 2>&1; m=$?
 res $c true "$t" $m
 cd /; git -C /repo worktree remove --force "$wt"
